@@ -2,6 +2,7 @@ import OH.Driver.Util
 import OH.Driver.C19
 import OH.Driver.Ev
 import OH.Driver.C20
+import OH.Driver.C14
 /-
 `ohdriver`: reads protocol lines on stdin, prints one verdict line per input line.
 Only core + OH.Model/OH.Driver imports (no Mathlib), so it links as a `lean_exe`.
@@ -11,8 +12,9 @@ open OH.Driver
 def dispatch (op : String) (args impl : List String) : String :=
   let r :=
     if op.startsWith "et." then OH.Driver.C19.handle op args impl
-    else if op.startsWith "ev." then OH.Driver.Ev.handle op args impl
+    else if op.startsWith "ev." || op.startsWith "c01." then OH.Driver.Ev.handle op args impl
     else if op.startsWith "usv." then OH.Driver.C20.handle op args impl
+    else if op.startsWith "sch." then OH.Driver.C14.handle op args impl
     else none
   match r with
   | some v => v
